@@ -41,6 +41,7 @@ def programs(ctx):
     out.append(E.Prog("p_self_in_bounds", text, [], {"describe": "Self in bound(..) and in a field type: derive_ex(Add, AddAssign, Neg, bound(Self: Tr, ..)) struct S<T>(L, T); derive_ex(Neg) struct P { t: Tag<Self>, l: L }"}, ncheck=True))
     rp = "\npub fn replay(_h: &str, _b: &[u8]) -> (bool, String) { (true, String::new()) }\n"
     out.append(E.Prog("p_kf_unsized_tail", "#[derive_ex::derive_ex(Sub, SubAssign, Neg)]\npub struct S<T: ?Sized>(pub L, pub T);\n" + rp, [], {"describe": "derive_ex(Sub, SubAssign, Neg) struct S<T: ?Sized>(L, T);"}))
+    out.append(E.Prog("p_kf_self_projection_field", "pub trait TrA { type A; }\nimpl<T> TrA for S2<T> { type A = T; }\n#[derive_ex::derive_ex(Add)]\npub struct S2<T>(pub <Self as TrA>::A);\n" + rp, [], {"describe": "trait TrA { type A; } impl<T> TrA for S2<T> { type A = T; } derive_ex(Add) struct S2<T>(<Self as TrA>::A);"}))
     out.append(E.Prog("p_kf_assoc_output", "pub trait Measure { type Output; }\n#[derive_ex::derive_ex(Sub, Neg)]\npub struct S<T: Measure>(pub T, pub T::Output);\n" + rp, [], {"describe": "trait Measure { type Output; } derive_ex(Sub, Neg) struct S<T: Measure>(T, T::Output);"}))
     # `Self` in an inline parameter bound and in the item's own where-clause (all eight forms exist and agree with the owned form)
     text = ("pub trait TagOf<W> {}\nimpl TagOf<Q<L>> for L {}\nimpl TagOf<R<L, 2>> for L {}\n"
